@@ -16,7 +16,7 @@ func init() {
 		id:  "C02",
 		run: runC02,
 		explanation: "Structural clauses of 'genuine witness, never a crash': (R1) scratch-slab carving is bounded — alloc16/alloc32 reslice the slab only under `slab != nil` and `cap(slab.Ixx) > offset+size` with the slice's high bound being that same offset+size, and fall back to a fresh make(size) otherwise (every unit test passes a nil slab, so only the real program takes the slab path); " +
-			"(R2) every key of the accent-folding table lies inside the range that normalizeRune lets through to the table.",
+			"(R2) every key of the accent-folding table lies inside the range that normalizeRune lets through to the table; (R3) the word-boundary bonus of an exact-boundary term is tested only where it was computed, so the term matches in both scan directions (found D9).",
 		notDecided: "witness soundness and completeness of the matchers (positions increasing, inside range, matching characters), index arithmetic of V1/V2/exact/prefix/suffix/equal, ASCII pre-filter window",
 	})
 	register(&propDef{
@@ -197,6 +197,7 @@ func runC02(c *Ctx, r *Report) {
 		})
 	}
 	r.floor("entries of the accent table", n, 300)
+	defer c02r3(c, r)
 	r.check(n > 0 && minK >= lo && maxK <= hi, "algo.normalized within guard", g.Pos(), nil,
 		fmt.Sprintf("%d table keys span [%#x, %#x], inside normalizeRune's guard [%#x, %#x]", n, minK, maxK, lo, hi),
 		fmt.Sprintf("keys span [%#x, %#x] but only [%#x, %#x] reaches the table", minK, maxK, lo, hi))
@@ -327,7 +328,9 @@ func runC03(c *Ctx, r *Report) {
 		})
 		r.floor("alloc16 calls in FuzzyMatchV2", n, 3)
 	}
+	c03r3(c, r)
 	mk := l.Fn("util", "MakeSlab")
+	r.curRule = "C03-R2"
 	nMk := 0
 	if mk != nil {
 		for _, f := range l.AllFuncs() {
@@ -574,4 +577,176 @@ func beginDerivedShallow(e ssa.Value, from *ssa.Phi, f func(ssa.Value) bool) boo
 		return false // judged at its own edges
 	}
 	return f(e)
+}
+
+// C03-R3: configure-then-derive ordering inside algo.Init.
+func c03r3(c *Ctx, r *Report) {
+	l := c.L
+	r.rule("C03-R3", "A (ordering of writes and dependent reads)", "P1",
+		"in algo.Init every package-level scoring input that Init assigns (bonusBoundaryWhite, bonusBoundaryDelimiter, delimiterChars, initialCharClass, ...) is assigned before anything in Init reads it, directly or through a callee (the loops that derive asciiCharClasses and bonusMatrix): no read of such a global can reach a store of it",
+		"the derived tables are built from the previous/default scheme's inputs: --scheme=path scores `,:;|` as delimiters, or bonusMatrix lags one Init behind")
+	init := l.Fn("algo", "Init")
+	if init == nil {
+		r.unest("anchors", token.NoPos, nil, "anchor algo.Init", "cannot resolve")
+		return
+	}
+	// globals of package algo stored in Init
+	stores := map[*ssa.Global][]ssa.Instruction{}
+	eachInstr(init, func(in ssa.Instruction) {
+		if st, ok := in.(*ssa.Store); ok {
+			if g, ok := st.Addr.(*ssa.Global); ok && g.Pkg == l.pkg("algo") {
+				stores[g] = append(stores[g], in)
+			}
+		}
+	})
+	// readers: functions of package algo that load a global (transitively)
+	reads := map[*ssa.Function]map[*ssa.Global]bool{}
+	var fns []*ssa.Function
+	for _, f := range l.AllFuncs() {
+		if f.Pkg == l.pkg("algo") {
+			fns = append(fns, f)
+			reads[f] = map[*ssa.Global]bool{}
+			eachInstr(f, func(in ssa.Instruction) {
+				if u, ok := in.(*ssa.UnOp); ok && u.Op == token.MUL {
+					if g, ok := u.X.(*ssa.Global); ok {
+						reads[f][g] = true
+					}
+				}
+				if ia, ok := in.(*ssa.IndexAddr); ok {
+					if g, ok := ia.X.(*ssa.Global); ok {
+						for _, ref := range *ia.Referrers() {
+							if u, ok := ref.(*ssa.UnOp); ok && u.Op == token.MUL {
+								reads[f][g] = true
+							}
+						}
+					}
+				}
+			})
+		}
+	}
+	for changed := true; changed; {
+		changed = false
+		for _, f := range fns {
+			eachInstr(f, func(in ssa.Instruction) {
+				if g := staticCallee(in); g != nil && reads[g] != nil {
+					for k := range reads[g] {
+						if !reads[f][k] {
+							reads[f][k] = true
+							changed = true
+						}
+					}
+				}
+			})
+		}
+	}
+	n := 0
+	for g, sts := range stores {
+		// read sites inside Init: direct loads and calls of readers
+		var rds []ssa.Instruction
+		eachInstr(init, func(in ssa.Instruction) {
+			if u, ok := in.(*ssa.UnOp); ok && u.Op == token.MUL && u.X == ssa.Value(g) {
+				rds = append(rds, in)
+			}
+			if cal := staticCallee(in); cal != nil && cal != init && reads[cal] != nil && reads[cal][g] {
+				rds = append(rds, in)
+			}
+		})
+		if len(rds) == 0 {
+			continue
+		}
+		n++
+		bad := ""
+		for _, rd := range rds {
+			for _, st := range sts {
+				if canReach(rd, st) {
+					bad = fmt.Sprintf("the read at %s can be followed by the assignment at %s", l.pos(rd.Pos()), l.pos(st.Pos()))
+				}
+			}
+		}
+		r.check(bad == "", "algo.Init:"+g.Name()+" set before use", sts[0].Pos(), init, g.Name()+" is assigned before Init derives anything from it", bad)
+	}
+	r.floor("scoring inputs that Init both assigns and derives tables from", n, 3)
+}
+
+// C02-R3 (shared with C01): def-use guard agreement for the boundary bonus in exactMatchNaive.
+func c02r3(c *Ctx, r *Report) {
+	l := c.L
+	r.rule("C02-R3", "A (def-use guard agreement)", "P1",
+		"in exactMatchNaive the per-match `bonus` is computed (bonusAt) only when the pattern's first character is being compared (pidx_ == 0); every test of that bonus against bonusBoundary that can reject a character inside the boundaryCheck branch is under the same pidx_ == 0 guard",
+		"scanning backward (--scheme=path, --tiebreak=end) the first pattern character is seen last: a test of the not-yet-computed bonus rejects every candidate and 'word' terms match nothing")
+	f := l.Fn("algo", "exactMatchNaive")
+	bonusAt := l.Fn("algo", "bonusAt")
+	bb, okc := constOf(l, "algo", "bonusBoundary")
+	if f == nil || bonusAt == nil || !okc {
+		r.unest("anchors", token.NoPos, nil, "anchors exactMatchNaive / bonusAt / bonusBoundary", "cannot resolve")
+		return
+	}
+	var boundaryParam *ssa.Parameter
+	for _, p := range f.Params {
+		if p.Name() == "boundaryCheck" {
+			boundaryParam = p
+		}
+	}
+	pc := pathConds(f)
+	// the guard atom(s) under which bonusAt is called
+	var guardAtoms []ssa.Value
+	var bonusCalls []ssa.Value
+	eachInstr(f, func(in ssa.Instruction) {
+		call, ok := in.(*ssa.Call)
+		if !ok || call.Common().StaticCallee() != bonusAt {
+			return
+		}
+		bonusCalls = append(bonusCalls, call)
+		for _, d := range pc.At(in.Block()) {
+			for _, lt := range d {
+				if x, op, k, ok := cmpInt(lt.Atom); ok && k == 0 && op == token.EQL && lt.Val {
+					_ = x
+					guardAtoms = append(guardAtoms, lt.Atom)
+				}
+			}
+		}
+	})
+	if len(bonusCalls) == 0 || len(guardAtoms) == 0 || boundaryParam == nil {
+		r.unest("algo.exactMatchNaive:bonus definition", f.Pos(), f, "bonusAt call under a `pidx_ == 0` guard", "shape not found")
+		return
+	}
+	isGuard := func(a ssa.Value) bool {
+		for _, g := range guardAtoms {
+			if g == a {
+				return true
+			}
+			// same comparison on the same operand
+			x1, o1, k1, ok1 := cmpInt(g)
+			x2, o2, k2, ok2 := cmpInt(a)
+			if ok1 && ok2 && x1 == x2 && o1 == o2 && k1 == k2 {
+				return true
+			}
+		}
+		return false
+	}
+	der := forwardDerived(f, bonusCalls, nil)
+	n := 0
+	eachInstr(f, func(in ssa.Instruction) {
+		b, ok := in.(*ssa.BinOp)
+		if !ok {
+			return
+		}
+		x, op, k, ok := cmpInt(b)
+		if !ok || k != bb || !der[x] || (op != token.GEQ && op != token.LSS && op != token.GTR && op != token.LEQ) {
+			return
+		}
+		// only tests inside the boundaryCheck branch
+		inBoundary, _ := pc.Implies(in.Block(), func(lits []Lit) bool {
+			return hasLit(lits, func(a ssa.Value, v bool) bool { return a == ssa.Value(boundaryParam) && v })
+		})
+		if !inBoundary {
+			return
+		}
+		n++
+		guarded, _ := pc.Implies(in.Block(), func(lits []Lit) bool {
+			return hasLit(lits, func(a ssa.Value, v bool) bool { return v && isGuard(a) })
+		})
+		r.check(guarded, fmt.Sprintf("algo.exactMatchNaive:boundary bonus test #%d", n), in.Pos(), f, "the boundary-bonus test is evaluated under the guard where the bonus was computed (first pattern character)", "the bonus is tested on every character: in a backward scan it is still zero when the last pattern character is compared")
+	})
+	r.floor("boundary-bonus tests inside the boundaryCheck branch", n, 1)
 }
